@@ -559,13 +559,27 @@ func ruleSuffixBitsReported(c *Ctx) {
 	gs := P.Method(tso, "AllocatorManager", "GetSuffixBits")
 	maxSuffix := P.Field(tso, "AllocatorManager", "mu", "maxSuffix")
 	cal := F(P.Func(tso, "CalSuffixBits"))
-	okG := false
-	for _, ci := range callsIn(gs, false, cal) {
-		if a := callArgs(ci.Common()); len(a) == 1 && isLoadOf(a[0], maxSuffix) {
-			okG = true
+	// … on every path: each value it can return is CalSuffixBits(maxSuffix) (suffixes are never renumbered, so the
+	// width follows the largest suffix ever handed out, not the number of dc-locations present now)
+	okG, nRet := true, 0
+	for _, b := range gs.Blocks {
+		r, ok := b.Instrs[len(b.Instrs)-1].(*ssa.Return)
+		if !ok || len(r.Results) != 1 {
+			continue
+		}
+		for _, alt := range valueAlternatives(retVal(r, 0), 4) {
+			nRet++
+			cl, _ := callOf(alt)
+			if cl == nil || !cal.Match(cl.Common()) {
+				okG = false
+				continue
+			}
+			if a := callArgs(cl.Common()); len(a) != 1 || !isLoadOf(a[0], maxSuffix) {
+				okG = false
+			}
 		}
 	}
-	c.Check(okG, rule, "GetSuffixBits", "computed from the largest suffix in use", P.pos(gs.Pos()), "")
+	c.Check(okG && nRet > 0, rule, "GetSuffixBits", "computed from the largest suffix in use, on every path", P.pos(gs.Pos()), "")
 	// local allocator passes GetSuffixBits to getTS
 	lg := P.Method(tso, "LocalTSOAllocator", "GenerateTSO")
 	okL := false
@@ -584,6 +598,7 @@ func init() {
 		c.Group("C05/estimate-validated", "the global allocator validates its estimate before writing it; the local side bumps an equal maximum and never reports a failed write as synced", func() { ruleGlobalSettingPhase(c); ruleAllKnownDCsSynced(c) })
 		c.Group("C05/overflow-carry", "when the estimate's logical part overflows it is reset only together with an advance of its physical part", func() { ruleOverflowCarry(c); ruleOverflowVetted(c) })
 		c.Group("C05/suffix-bits-reported", "the suffix width reported with a timestamp is the width used to differentiate it, computed from the largest suffix in use", func() { ruleSuffixBitsReported(c) })
+		c.Group("C05/monotone-write", "(shared with C01) the maximum written back into a local allocator is adopted whenever it is later in the millisecond arithmetic timestamps are composed with: equal milliseconds are decided by the logical part", func() { ruleMonotoneWrite(c) })
 		c.Group("C05/global-generate", "(shared with C01) a global timestamp is returned only after ok(SyncMaxTS), pre-check and a post-write leadership check", func() { ruleGlobalGenerate(c) })
 		c.Group("C05/getTS", "(shared with C01) overflow and lease guards of the local path", func() { ruleGetTS(c) })
 	})
